@@ -8,7 +8,7 @@ mkdir -p "$scratch/repo" && cp -r /repo/src "$scratch/repo/src" && cp -r /repo/t
 ( cd "$scratch/repo" && patch -p1 -s < "$patch" ) || { echo "patch failed"; rm -rf "$scratch"; exit 9; }
 rc=0
 for p in "$@"; do
-  OSU_REPO="$scratch/repo" OSU_EVIDENCE_DIR="$scratch/evidence" NUMBA_CACHE_DIR="$scratch/numba" "$(dirname "$0")/check" "$p" ${TIER:+--tier $TIER} 2>&1 | tail -${TAILN:-8}
+  OSU_REPO="$scratch/repo" OSU_EVIDENCE_DIR="$scratch/evidence" NUMBA_CACHE_DIR="$scratch/numba" "$(dirname "$0")/check" "$p" ${TIER:+--tier $TIER} ${CHECK_ARGS:-} 2>&1 | tail -${TAILN:-8}
   r=${PIPESTATUS[0]}; echo "exit=$r"; [ "$r" != 0 ] && rc=$r
 done
 rm -rf "$scratch"
